@@ -702,9 +702,9 @@ macro_rules! l4096 { () => { concat!(c1024!(), c1024!(), c1024!(), c1024!()) }; 
 
 /// one call site per (macro, template); `false` = no such template
 macro_rules! tpl_call {
-    ($m:ident, $tpl:expr, $a:expr, $b:expr, $num:expr, $s:expr) => {
+    ($m:ident, $none:expr, $tpl:expr, $a:expr, $b:expr, $num:expr, $s:expr) => {
         match $tpl {
-            "n" => { tiny_std::$m!(); true }
+            "n" => { $none; true }
             "a" => { tiny_std::$m!("{}", $a); true }
             "b" => { tiny_std::$m!("id={} payload={} end", $a, $b); true }
             "c" => { tiny_std::$m!(concat!(l255!(), "{}", c256!(), "{}", l257!()), $a, $b); true }
@@ -796,10 +796,10 @@ fn run_prt(gen: bool, detail: bool, a: &[&str]) -> Option<String> {
     }));
     let mut hdrs: Vec<String> = Vec::new();
     let r = catch_unwind(AssertUnwindSafe(|| match kind {
-        "p" => tpl_call!(print, tpl, a0, a1, num, gstr.as_str()),
-        "P" => tpl_call!(println, tpl, a0, a1, num, gstr.as_str()),
-        "e" => tpl_call!(eprint, tpl, a0, a1, num, gstr.as_str()),
-        "E" => tpl_call!(eprintln, tpl, a0, a1, num, gstr.as_str()),
+        "p" => tpl_call!(print, tiny_std::print!(""), tpl, a0, a1, num, gstr.as_str()),
+        "P" => tpl_call!(println, tiny_std::println!(), tpl, a0, a1, num, gstr.as_str()),
+        "e" => tpl_call!(eprint, tiny_std::eprint!(""), tpl, a0, a1, num, gstr.as_str()),
+        "E" => tpl_call!(eprintln, tiny_std::eprintln!(), tpl, a0, a1, num, gstr.as_str()),
         // the header is "[file:line] expr = " with the line of the dbg! invocation: keep each pair on one line
         "d" => match tpl {
             "n" => { hdrs.push(format!("[{}:{}]", file!(), line!())); tiny_std::dbg!(); true }
